@@ -5,6 +5,7 @@ import (
 
 	"github.com/smart-core-os/sc-api/go/traits"
 	"github.com/smart-core-os/sc-golang/pkg/resource"
+	"github.com/smart-core-os/sc-golang/pkg/trait/electricpb"
 	"github.com/smart-core-os/sc-golang/pkg/trait/openclosepb"
 	"github.com/smart-core-os/sc-golang/verifharness/vcoq"
 	"google.golang.org/protobuf/proto"
@@ -61,6 +62,27 @@ func (g *gen) scenarios() {
 				Replay: map[string]any{"steps": []string{"NewModel(WithPreset a: UP 10%, WithPreset b: UP 60%)", "UpdatePositions({preset:{name:a}}, update_mask=[states.resistance])",
 					"UpdatePositions({preset:{name:b}})", "UpdatePositions({preset:{name:a}})"},
 					"expected": txt(want), "observed": fmt.Sprint(txt(got))}})
+		}
+	}
+	// 3. the witness of C07_write_of_stored_message_v0_refuted on the tree: a model writes one of its stored
+	// messages (the mode held by the modes collection) to another resource constructed with writable fields
+	{
+		m := electricpb.NewModel(electricpb.WithActiveModeOption(resource.WithWritablePaths(&traits.ElectricMode{}, "id", "title")))
+		created, err := m.CreateMode(&traits.ElectricMode{Title: "a", Description: "b", Voltage: 230,
+			Segments: []*traits.ElectricMode_Segment{{Magnitude: 3}}})
+		g.hist["scenario: electric ChangeActiveMode with writable fields on the active mode"]++
+		if err == nil {
+			want := proto.Clone(created)
+			_, _ = m.ChangeActiveMode(created.Id)
+			stored, _ := m.FindMode(created.Id)
+			if !proto.Equal(want, created) || !proto.Equal(want, stored) {
+				g.o.Directs = append(g.o.Directs, vcoq.Direct{
+					What:  "electricpb ChangeActiveMode hands the stored mode to activeMode.Set, which filters the message it is given in place when the resource has writable fields: the stored mode and the earlier result of CreateMode lose their other fields",
+					Class: "snapshot-changed:electricpb.Model.ChangeActiveMode",
+					Replay: map[string]any{"steps": []string{"NewModel(WithActiveModeOption(resource.WithWritablePaths(ElectricMode, id, title)))",
+						"created := CreateMode({title:a description:b voltage:230 segments:{magnitude:3}})", "ChangeActiveMode(created.Id)", "FindMode(created.Id)"},
+						"expected": txt(want), "observed": txt(stored)}})
+			}
 		}
 	}
 }
